@@ -198,6 +198,12 @@ def real_part(ctx, quick):
     has closed its stderr, also one whose process has been forked a moment ago and is not yet in a session of its own - and
     pdsh must then end with status 1.  Returns (runs, [(case, expected, observed, text)])."""
     import realeng, subprocess, signal
+    def dfl():
+        # whatever started this check (a background job of a non-interactive shell ignores SIGINT), pdsh starts with the
+        # default disposition and nothing blocked, as under a user's terminal
+        signal.signal(signal.SIGINT, signal.SIG_DFL)
+        signal.signal(signal.SIGTSTP, signal.SIG_DFL)
+        signal.pthread_sigmask(signal.SIG_SETMASK, set())
     real = realeng.Real(ctx, tag="real20")
     exe = os.path.join(real.dir, "bin", "pdsh")
     shim = os.path.join(ctx.scratch, "slowsetsid.so")
@@ -220,7 +226,7 @@ def real_part(ctx, quick):
             e = {"PATH": "/usr/bin:/bin", "HOME": "/root", "LANG": "C"}
             e.update(env)
             p = subprocess.Popen([exe, "-b", "-R", "exec", "-f", "8", "-w", "a,b,c"] + [c % {"tok": tok, "mark": mark} for c in cmd], env=e,
-                                 stdout=subprocess.PIPE, stderr=subprocess.PIPE)
+                                 stdout=subprocess.PIPE, stderr=subprocess.PIPE, preexec_fn=dfl)
             time.sleep(delay)
             p.send_signal(signal.SIGINT)
             nruns += 1
@@ -262,7 +268,7 @@ def real_part(ctx, quick):
     for rep in range(1 if quick else 4):
         e = {"PATH": "/usr/bin:/bin", "HOME": "/root", "LANG": "C"}
         p = subprocess.Popen([exe, "-R", "exec", "-f", "8", "-w", "a,b,c", "sh", "-c", "sleep 2; echo out-%h"], env=e,
-                             stdout=subprocess.PIPE, stderr=subprocess.PIPE, start_new_session=True)
+                             stdout=subprocess.PIPE, stderr=subprocess.PIPE, start_new_session=True, preexec_fn=dfl)
         time.sleep(0.7)
         try:
             os.killpg(p.pid, signal.SIGINT)
